@@ -217,6 +217,14 @@ def size_boundary_cases(rng):
         tgt.append(R.mk(None, G.P("bytes"), "b" + ("cd" * n), "-"))
         if n < 20000:
             big.append(R.mk(None, G.P("bigint"), "z" + str((1 << (8 * n - 2)) + 12345), "-"))   # (the model's be_bytes is cubic)
+    # chunks of an evolved record beyond 16 MiB (chunk sizes are four-byte var-ints there): the initial chunk and an added one
+    F = lambda n, t: {"name": n, "ty": t, "opt": False, "transient": None}
+    big_env = [{"kind": "rec", "name": "BigRec", "fields": [F("a", G.P("u8")), F("payload", G.P("bytes")), F("tail", G.P("str"))],
+                "steps": [("add", "payload", "b-")]}]
+    n = (1 << 24) + 5
+    big.append(R.mk(big_env, ("named", 0), "(0 n7 b" + "ab" * n + " b7a)", "00"))            # the added chunk is large
+    big.append(R.mk(big_env, ("named", 0), "(0 n7 b01 b" + "71" * n + ")", "-"))             # the initial chunk is large
+    big.append(R.mk(None, ("tup", [G.P("u8"), G.P("bytes")]), "(0 n1 b" + "cd" * n + ")", "-"))
     return small, big
 
 
